@@ -1837,7 +1837,7 @@ impl<'a> Gen<'a> {
                 (name, t)
             }
             11 => {
-                let f = if self.rng.bool() { Fd::Fdt } else { self.pick_single_num_field(true) };
+                let f = if self.rng.chance(1, 3) { Fd::Fdt } else { self.pick_single_num_field(true) };
                 self.gen_hist_on(f, depth)
             }
             13 => {
